@@ -479,9 +479,42 @@ def m_structure(rng, prog):
     return True
 
 
+def m_binder(rng, prog):
+    """a binder (parameter, loop variable, defined name) is renamed to another identifier of the program: shadowing of
+    an outer variable by a lambda / function parameter, redefinition, a parameter list with a repeated name"""
+    ids = all_ids(prog)
+    if len(ids) < 2:
+        return False
+    cands = []
+    for s in all_stmts(prog):
+        if s.tag in (G.S_FUN, G.S_LAM):
+            for p in (s.args[2] if s.tag == G.S_FUN else s.args[1]):
+                cands.append((p, 0))
+        if s.tag in (G.S_DEF, G.S_FOR, G.S_LAM, G.S_FUN, G.S_MUTDEF):
+            cands.append((s.args, 0))
+        if s.tag == G.S_UPDATE:
+            cands.append((s.args, 1))
+    if not cands:
+        return False
+    c, i = rng.choice(cands)
+    others = [x for x in ids if x != c[i]]
+    c[i] = rng.choice(others)
+    return True
+
+
 MUTATORS = [("operand-type", m_replace_by_other_type, 5), ("operand-swap", m_swap_operands_across, 3), ("operator", m_operator, 4),
             ("variable", m_variable, 4), ("arity", m_arity, 4), ("callee", m_callee, 3), ("annotation", m_annotation, 3),
-            ("statement", m_statement, 3), ("pattern", m_pattern, 1), ("structure", m_structure, 3)]
+            ("statement", m_statement, 3), ("pattern", m_pattern, 1), ("structure", m_structure, 3), ("binder", m_binder, 3)]
+
+
+def starts_paren(e):
+    """twin of NoCrash.Gen.starts_paren: the printed text begins with an opening parenthesis"""
+    t, a = e.tag, e.args
+    if t in (G.E_BIN, G.E_CMP, G.E_LOGIC):
+        return starts_paren(a[1]) if atomic(a[1]) else True
+    if t in (G.E_RANGE, G.E_INDEX):
+        return starts_paren(a[0]) if atomic(a[0]) else True
+    return t == G.E_TUPLE
 
 
 def fix_block_ends(prog):
@@ -497,6 +530,11 @@ def fix_block_ends(prog):
         if not top and (not ss or ss[-1].tag in (G.S_DEF, G.S_MUTDEF, G.S_FUN, G.S_LAM, G.S_PAT)):
             ss.append(S(G.S_EXPR, [E(G.E_LIT, [G.L_NAT, 0], G.NAT)]) if in_fun else S(G.S_PRINT, [[E(G.E_LIT, [G.L_NAT, 0], G.NAT)]]))
         for s in ss:
+            # statement-level condition / iterable whose text would begin with `(` (`if! (a) and b:` is a call of if!)
+            if s.tag in (G.S_IF, G.S_WHILE) and starts_paren(s.args[0]):
+                s.args[0] = E(G.E_LOGIC, [0, E(G.E_LIT, [G.L_BOOL, 1], G.BOOL, w=0), s.args[0]], None, w=0)
+            if s.tag == G.S_FOR and starts_paren(s.args[1]):
+                s.args[1] = E(G.E_LIST, [[s.args[1]]], None, w=0)
             if s.tag == G.S_IF:
                 fix(s.args[1], False, False)
                 if s.args[2]:
